@@ -247,7 +247,32 @@ def gen_Attr():
     write("Attr", body, "attribute setters of magpylib/_src/obj_classes/*.py (AST)")
 
 
-GENERATORS = {"Const": gen_Const, "Attr": gen_Attr, "PathPad": gen_PathPad, "Exits": gen_Exits, "Ndim": gen_Ndim}
+def gen_Defaults():
+    """the DEFAULTS tree of defaults_values.py as flat (path, has-value) rows, and the style families"""
+    import magpylib._src.defaults.defaults_values as dv
+
+    def walk(t, p=()):
+        for k, v in t.items():
+            if isinstance(v, dict):
+                yield from walk(v, p + (k,))
+            else:
+                yield p + (k,), v
+
+    rows = list(walk(dv.DEFAULTS))
+    if len(rows) < 50:
+        raise Refusal("DEFAULTS tree unexpectedly small")
+    fams = sorted(dv.DEFAULTS["display"]["style"].keys())
+    lst = ",\n".join("  ([" + ", ".join(f'"{x}"' for x in p) + f'], {"true" if v is not None else "false"})' for p, v in rows)
+    body = ("namespace MagpyVerif.Gen.Defaults\n\n"
+            "/-- every leaf of `DEFAULTS`: key path and whether the default is a value (not None) -/\n"
+            f"def leaves : List (List String × Bool) := [\n{lst}]\n\n"
+            "/-- style families under display.style -/\n"
+            f"def families : List String := [{', '.join(chr(34) + f + chr(34) for f in fams)}]\n\n"
+            "end MagpyVerif.Gen.Defaults\n")
+    write("Defaults", body, "magpylib/_src/defaults/defaults_values.py:DEFAULTS")
+
+
+GENERATORS = {"Const": gen_Const, "Defaults": gen_Defaults, "Attr": gen_Attr, "PathPad": gen_PathPad, "Exits": gen_Exits, "Ndim": gen_Ndim}
 
 
 def main():
